@@ -252,6 +252,12 @@ def systematic(tier):
     yield mk([mixed, good, mixed], tags=1, layout=LAYOUT_FULL)
     yield mk([mixed, mixed], hooks=[("before_feature", "AFeature")])
     yield mk([mixed, mixed], hooks=[("after_feature", "BFeature")])
+    # H. scenarios that share their name (same keyword, same name) in one feature: they are different scenarios
+    for o1, o2, o3, o4 in (("pass", "pass", "fail", "pass"), ("fail", "pass", "pass", "pass"), ("pass", "error", "pass", "fail"),
+                           ("pass", "pass", "pass", "undefined")):
+        yield mk([F([], rules=[R([S([o1], name="Happy path"), S([o2], name="Bad input")], name="Deposit"),
+                               R([S([o3], name="Happy path"), S([o4], name="Bad input")], name="Withdraw")])])
+        yield mk([F([S([o1], name="Twin"), S([o2], name="Twin"), S([o3], name="Twin")])])
 
 
 def run_systematic(tier, rng):
@@ -313,13 +319,14 @@ def run_random(tier, rng):
 CHECKS = [
     BoundedCheck(
         "rerun-history-systematic",
-        bound={"quick": "174 fixed two-run histories (173 distinct), smallest first: 1 scenario x 6 step outcomes (pass, fail, error, "
+        bound={"quick": "182 fixed two-run histories, smallest first: 1 scenario x 6 step outcomes (pass, fail, error, "
                         "undefined, pending, skip) x stale file present/absent; failing before/after_scenario hook; all "
                         "36 outcome pairs of two scenarios and of two outline rows; two-step scenarios; two examples "
                         "blocks; inside/outside a rule (27); a mixed feature with each of before/after_feature, "
                         "before/after_rule hook failing, with and without tag exclusion; 2..3 files of which only some "
-                        "have unsuccessful scenarios",
-               "thorough": "same 174 histories"},
+                        "have unsuccessful scenarios; features whose scenarios share keyword and name (two rules with the same "
+                        "scenario names, three scenarios of one name)",
+               "thorough": "same 182 histories"},
         run=run_systematic, replay=replay,
         contract="after run 1 with -f rerun -o F: non-comment lines of F == ['file:line' of every scenario that was "
                  "entered and ended failed/error-class, in run order] (writer's lines); F absent when there are none "
